@@ -15,6 +15,8 @@ import (
 	"encoding/json"
 	"fmt"
 	"io"
+	"math"
+	"math/big"
 	"mime"
 	"net/http"
 	"os"
@@ -600,7 +602,7 @@ func submit(rt *client.Runtime, w *wire, oi int, op Op, call *Call, o *obs, wher
 			case mtJSON:
 				var v interface{}
 				cerr = cons.Consume(bytes.NewReader(o.body), &v)
-				o.consOK = cerr == nil && reflect.DeepEqual(v, wantData)
+				o.consOK = cerr == nil && equalDoc(v, wantData)
 			case mtText:
 				var s string
 				cerr = cons.Consume(bytes.NewReader(o.body), &s)
@@ -644,12 +646,12 @@ func submit(rt *client.Runtime, w *wire, oi int, op Op, call *Call, o *obs, wher
 		}
 	}
 	if op.Payload == "json" {
-		if got := o.got["body"]; !reflect.DeepEqual(got, body) {
+		if got := o.got["body"]; !equalDoc(got, body) {
 			return kit.Failf("BODY %s: supplied JSON %s, the handler got %#v", where, call.Body, got)
 		}
 	}
 	if op.Payload == "yaml" {
-		if got := plainNumbers(o.got["body"]); !reflect.DeepEqual(got, body) {
+		if got := o.got["body"]; !equalDoc(got, body) {
 			return kit.Failf("BODY %s: supplied (as YAML) %s, the handler got %#v", where, call.Body, o.got["body"])
 		}
 	}
@@ -716,7 +718,7 @@ func submit(rt *client.Runtime, w *wire, oi int, op Op, call *Call, o *obs, wher
 	switch op.Produces {
 	case mtJSON:
 		got, jerr := decodeJSON(string(o.body))
-		if jerr != nil || !reflect.DeepEqual(got, wantData) {
+		if jerr != nil || !equalDoc(got, wantData) {
 			return kit.Failf("RESPBODY %s: the handler returned JSON %s, the reader saw %q (%v)", where, orNull(call.Res.JSON), clipb(o.body), jerr)
 		}
 	default:
@@ -728,6 +730,87 @@ func submit(rt *client.Runtime, w *wire, oi int, op Op, call *Call, o *obs, wher
 		return kit.Failf("CONSUMER %s (%s): the consumer handed to the reader does not decode the body %q to the handler's value (%s)", where, op.Produces, clipb(o.body), o.consEr)
 	}
 	return nil
+}
+
+// equalDoc compares two decoded documents (JSON or YAML): maps by key, sequences by position, strings, booleans
+// and null exactly, numbers by their exact numeric value whatever Go type carries them (json.Number, int64,
+// float64, ...). A decoder that turns 9223372036854775807 into a float64 therefore does not compare equal, one
+// that turns 0 into float64(0) does: the representation is the decoder's choice, the value is not.
+func equalDoc(a, b interface{}) bool {
+	if ra, ok := numOf(a); ok {
+		rb, ok := numOf(b)
+		return ok && ra.Cmp(rb) == 0
+	}
+	switch x := a.(type) {
+	case nil:
+		return b == nil
+	case string:
+		y, ok := b.(string)
+		return ok && x == y
+	case bool:
+		y, ok := b.(bool)
+		return ok && x == y
+	case []interface{}:
+		y, ok := b.([]interface{})
+		if !ok || len(x) != len(y) {
+			return false
+		}
+		for i := range x {
+			if !equalDoc(x[i], y[i]) {
+				return false
+			}
+		}
+		return true
+	case map[string]interface{}:
+		y, ok := b.(map[string]interface{})
+		if !ok || len(x) != len(y) {
+			return false
+		}
+		for k, e := range x {
+			f, present := y[k]
+			if !present || !equalDoc(e, f) {
+				return false
+			}
+		}
+		return true
+	case map[interface{}]interface{}:
+		conv := make(map[string]interface{}, len(x))
+		for k, e := range x {
+			ks, ok := k.(string)
+			if !ok {
+				return false
+			}
+			conv[ks] = e
+		}
+		return equalDoc(conv, b)
+	}
+	return false
+}
+
+func numOf(v interface{}) (*big.Rat, bool) {
+	switch x := v.(type) {
+	case json.Number:
+		r, ok := new(big.Rat).SetString(string(x))
+		return r, ok
+	case float64:
+		if math.IsNaN(x) || math.IsInf(x, 0) {
+			return nil, false
+		}
+		return new(big.Rat).SetFloat64(x), true
+	case float32:
+		return numOf(float64(x))
+	case int:
+		return new(big.Rat).SetInt64(int64(x)), true
+	case int64:
+		return new(big.Rat).SetInt64(x), true
+	case int32:
+		return new(big.Rat).SetInt64(int64(x)), true
+	case uint64:
+		return new(big.Rat).SetFrac(new(big.Int).SetUint64(x), big.NewInt(1)), true
+	case uint:
+		return numOf(uint64(x))
+	}
+	return nil, false
 }
 
 // plainNumbers rewrites a decoded document so that numbers are int64 or float64 whatever decoder produced them
